@@ -117,7 +117,7 @@ type originRef struct{ ID, Source, Contract string }
 // NewWorld builds a chain from the genesis spec and opens the first block.
 func NewWorld(t *rapid.T, g GenesisSpec, prof *Profile, fail FailFunc, mons ...Monitor) *World {
 	w := &World{T: t, Profile: prof, Mons: mons, Fail: fail, Flags: map[string]bool{}, Accepted: map[string]int{}}
-	w.Opts = chain.Options{DataHasher: g.Hasher.Build()}
+	w.Opts = chain.Options{DataHasher: g.Hasher.Build(), ChainID: g.ChainID}
 	w.C = chain.New(dbm.NewMemDB(), w.Opts)
 	w.Accts = DefaultAccounts()
 	cg, err := g.ToChainGenesis()
